@@ -488,6 +488,15 @@ func (a *Analysis) ruleBuiltins() {
 		}
 	}
 	for _, op := range a.ops {
+		if op.Op.Kind == OpCancel {
+			for _, hid := range op.CtxNotCancelled {
+				shape := "cancel-propagation/inherited"
+				if hid == op.Handle {
+					shape = "cancel-propagation/own"
+				}
+				a.add("C18", "C18.ctx", shape, "op%d Cancel(h%d): the creation context was cancelled but scope h%d's Context() (derived from it) is not done", op.GID, op.Handle, hid)
+			}
+		}
 		if op.Op.Kind == OpFromContext && op.Done && op.Aborted == "" && op.Panic == nil {
 			hd := h.handle(op.Handle)
 			if op.Err != nil || !sameIface(op.Builtin, hd.Scope) {
